@@ -29,7 +29,7 @@ RULE = (
     "must be bit-identical to those of a module that was only edited; state = (model, canonical module snapshot hash, "
     "history); distinct = distinct (model, call/configuration) result digests"
 )
-REQUIRED_COVER = ["non_default_delta_t", "prod_gt_steps", "depth3_nesting", "externals_unequal_width", "batch_size_1", "jit", "vmap_params", "vmap_stimuli",
+REQUIRED_COVER = ["explicit_solver", "non_default_delta_t", "prod_gt_steps", "depth3_nesting", "externals_unequal_width", "batch_size_1", "jit", "vmap_params", "vmap_stimuli",
                   "jit_vmap", "repeat_bit_identical", "history_depth2", "edit_between_integrate_calls", "recordings_deleted_through_view_between_calls", "tmax_longer_pads", "tmax_shorter_truncates"]
 ASSUMPTIONS = [
     "eager CPU execution is deterministic (single XLA thread per worker), so bit-identity of repeated calls is decidable",
@@ -40,6 +40,14 @@ T = 5  # stored input length (steps)
 DT = 0.025
 
 CALLS = ["plain", "data_stim", "data_clamp", "params", "tmax_short", "tmax_long", "ckpt"]
+# model D: an unbranched cable with one short compartment (stiff axial coupling) stepped with the EXPLICIT solver
+SOLVER_KW = {"D": {"solver": "fwd_euler"}}
+
+
+def _integ(name, m, **kw):
+    import jaxley as jx
+
+    return jx.integrate(m, **dict(SOLVER_KW.get(name, {}), **kw))
 
 
 def _setup(name):
@@ -52,11 +60,25 @@ def _setup(name):
         m = models.cell_hh_leak()
         m.branch(0).comp(1).stimulate(jnp.asarray(models.stim_series(T, 1)), verbose=False)
         m.branch([0, 1]).comp(0).clamp("v", jnp.asarray(models.clamp_series(T, 0)), verbose=False)
+    elif name == "D":
+        import jaxley as jx
+        from jaxley.channels import HH
+
+        m = jx.Branch([jx.Compartment()] * 5)
+        m.set("length", np.asarray([30.0, 30.0, 5.0, 30.0, 30.0]))
+        m.set("axial_resistivity", 2000.0)
+        m.set("radius", np.asarray([1.0, 0.8, 1.2, 0.9, 1.1]))
+        m.insert(HH())
+        m.set("v", np.asarray([-70.0, -66.0, -62.0, -68.0, -71.0]))
+        m.comp(0).stimulate(jnp.asarray(models.stim_series(T, 0)), verbose=False)
     else:
         m = models.net_syn()
         m.cell([0, 1]).branch(0).comp(0).stimulate(jnp.asarray(models.stim_series(T, 2)), verbose=False)
     m.record("v", verbose=False)
-    if name == "C":
+    if name == "D":
+        m.comp(0).record("HH_m", verbose=False)
+        tv = m.comp([0, 1])
+    elif name == "C":
         m.IonotropicSynapse.edge(0).record("IonotropicSynapse_s", verbose=False)
         tv = m.cell(0).branch(0)
     else:
@@ -68,6 +90,8 @@ def _setup(name):
 
 
 def _views(m, name):
+    if name == "D":
+        return m.comp(1), m.comp(3)
     if name == "C":
         return m.cell(1).branch(1).comp(0), m.cell(0).branch(1).comp(0)
     return m.branch(1).comp(0), m.branch(0).comp(1) if name == "A" else m.branch(1).comp(0)
@@ -80,26 +104,26 @@ def _call(m, name, kind, ck=None):
 
     sv, cv = _views(m, name)
     if kind == "plain":
-        return np.asarray(jx.integrate(m, checkpoint_lengths=ck))
+        return np.asarray(_integ(name, m, checkpoint_lengths=ck))
     if kind == "data_stim":
         ds = sv.data_stimulate(jnp.asarray(0.5 * models.stim_series(T, 4)))
-        return np.asarray(jx.integrate(m, data_stimuli=ds))
+        return np.asarray(_integ(name, m, data_stimuli=ds))
     if kind == "data_clamp":
         if name == "B":  # clamp a gate instead (the v clamp slot of B is taken by the stored clamp on other compartments)
             dc = m.branch(0).comp(1).data_clamp("HH_n", jnp.asarray(0.3 + 0.1 * (np.arange(T) % 2)))
         else:
             dc = cv.data_clamp("v", jnp.asarray(models.clamp_series(T, 3)))
-        return np.asarray(jx.integrate(m, data_clamps=dc))
+        return np.asarray(_integ(name, m, data_clamps=dc))
     if kind == "params":
         p = m.get_parameters()
         p2 = [{k: v * 1.25 for k, v in d.items()} for d in p]
-        return np.asarray(jx.integrate(m, params=p2))
+        return np.asarray(_integ(name, m, params=p2))
     if kind == "tmax_short":
-        return np.asarray(jx.integrate(m, t_max=2 * DT + DT / 2))
+        return np.asarray(_integ(name, m, t_max=2 * DT + DT / 2))
     if kind == "tmax_long":
-        return np.asarray(jx.integrate(m, t_max=(T + 2) * DT + DT / 2))
+        return np.asarray(_integ(name, m, t_max=(T + 2) * DT + DT / 2))
     if kind == "ckpt":
-        return np.asarray(jx.integrate(m, checkpoint_lengths=[2, 3]))
+        return np.asarray(_integ(name, m, checkpoint_lengths=[2, 3]))
     raise ValueError(kind)
 
 
@@ -127,7 +151,7 @@ def ckpt_item(name, steps, tuples, dt=DT):
     if dt != DT:
         kw["delta_t"] = dt  # non-default time step (the default one is passed implicitly)
         out["cover"].append("non_default_delta_t")
-    plain = np.asarray(jx.integrate(m, **kw))
+    plain = np.asarray(_integ(name, m, **kw))
     if plain.shape[1] != steps + 1:
         _viol(out, "tmax_steps", name, {}, {"part": "ckpt", "model": name, "steps": steps, "tuple": None}, f"shape {plain.shape} for {steps} steps")
         return out
@@ -139,7 +163,7 @@ def ckpt_item(name, steps, tuples, dt=DT):
         prod = int(np.prod(tup))
         wit = {"part": "ckpt", "model": name, "steps": steps, "tuple": list(tup), "dt": dt}
         try:
-            r = np.asarray(jx.integrate(m, checkpoint_lengths=list(tup), **kw))
+            r = np.asarray(_integ(name, m, checkpoint_lengths=list(tup), **kw))
         except Exception as e:
             _viol(out, "checkpoint_raised", name, {"prod_gt_steps": prod > steps, "depth": len(tup)}, wit, f"{type(e).__name__}: {str(e)[:200]}")
             continue
@@ -168,10 +192,10 @@ def modes_item(name):
     base_stim = jnp.asarray(models.stim_series(T, 4))
 
     def sim_p(p):
-        return jx.integrate(m, params=p)
+        return _integ(name, m, params=p)
 
     def sim_s(amp):
-        return jx.integrate(m, data_stimuli=sv.data_stimulate(amp * base_stim))
+        return _integ(name, m, data_stimuli=sv.data_stimulate(amp * base_stim))
 
     def scale(p, f):
         return [{k: v * f for k, v in d.items()} for d in p]
@@ -406,6 +430,13 @@ def interleave_item(name, firsts, finals, only=None):
 
 
 def work(item):
+    out = _work(item)
+    if item.get("model") == "D":
+        out["cover"].append("explicit_solver")
+    return out
+
+
+def _work(item):
     if item["part"] == "interleave":
         return interleave_item(item["model"], item["firsts"], item["finals"], item.get("edits"))
     if item["part"] == "ckpt":
@@ -435,6 +466,13 @@ def explore(ctx):
         d = depth if (name == "B" or not quick) else 1
         for c in CALLS:
             items.append({"part": "history", "model": name, "prefix": [c], "depth": d})
+    # model D (explicit solver): execution modes, every call history of length <= 2, checkpoint tuples of the 5-step run
+    items.append({"part": "modes", "model": "D"})
+    for c in CALLS:
+        items.append({"part": "history", "model": "D", "prefix": [c], "depth": 2})
+    tups = list(scope.factorizations(3, maxe, 5, maxp))
+    for i in range(0, len(tups), 12):
+        items.append({"part": "ckpt", "model": "D", "steps": 5, "tuples": [list(t) for t in tups[i:i + 12]], "dt": DT})
     for name in "ABC":
         firsts = ["plain", "ckpt"] if quick else CALLS
         enames = list(_edit_names(name))
